@@ -5,6 +5,7 @@
    blocking.rs, park.rs, the call-level events of the mutex) plus the scenario's API records
 
      71 bar.new(n, gens)     72 bar.arrive(g, who)  right before Barrier::wait     73 bar.leave(g, leader)  right after it
+                             (g = 255: the party does not know its generation - more parties than n share the barrier)
      74 wg.new               75 wg.clone(who)  76 wg.drop(who)  77 wg.wait(who)  right before the call
      78 wg.done(who)  right after WaitGroup::wait returned          79 wg.give(k)  the creator moves a clone to worker k
 
@@ -151,11 +152,11 @@ Definition paccept_ev (p : pst) (e : list Z) : option pst :=
     | MBar n s =>
         if Z.eqb code 72
         then (* bar.arrive(g, who): the caller is outside, the generation in progress is g *)
-             if Nat.eqb (cop y a) 0 && bpc_eqb (bpc s a) BIdle && Nat.eqb (gen s) (Z.to_nat o)
+             if Nat.eqb (cop y a) 0 && bpc_eqb (bpc s a) BIdle && (Z.eqb o 255 || Nat.eqb (gen s) (Z.to_nat o))
              then Some (m, (x, set_cop y a 1%nat (Z.to_nat o))) else None
         else if Z.eqb code 73
         then (* bar.leave(g, leader): wait() has returned; it joined generation g; leader as the model says *)
-             if Nat.eqb (cop y a) 2 && bpc_eqb (bpc s a) BIdle && Nat.eqb (cg y a) (Z.to_nat o) && Nat.eqb (lgen s a) (Z.to_nat o)
+             if Nat.eqb (cop y a) 2 && bpc_eqb (bpc s a) BIdle && Nat.eqb (cg y a) (Z.to_nat o) && (Z.eqb o 255 || Nat.eqb (lgen s a) (Z.to_nat o))
                 && Bool.eqb (cl y a) (zb v) && Nat.ltb (lgen s a) (gen s)
              then Some (m, (x, set_cop y a 0%nat 0%nat)) else None
         else if Z.leb 71 code && Z.leb code 79 then None
